@@ -63,6 +63,8 @@ struct Cfg {
     /// further sessions at the sender, which the adversary may close (a CloseSession status report
     /// from their peer) at any quiescent point: no business of the exchange under test
     bystanders: usize,
+    /// the transmit counters of both ends of the session start here (None: the random 28-bit start)
+    start_ctr: Option<u32>,
 }
 
 #[derive(Default, Debug)]
@@ -144,6 +146,16 @@ fn build(cfg: &Cfg) -> World {
     nodes::install_session(ma, SeededRng::new(101), cfg.kind, NODE_A, NODE_B, 1, 2, addr_of(1), &k2, &k1).unwrap();
     nodes::install_session(mb, SeededRng::new(202), cfg.kind, NODE_B, NODE_A, 2, 1, addr_of(0), &k1, &k2).unwrap();
 
+    if let Some(c0) = cfg.start_ctr {
+        for (m, local) in [(ma, 1u16), (mb, 2u16)] {
+            m.with_state(|s| {
+                let id = s.verif_sessions().iter().find(|x| x.get_local_sess_id() == local).map(|x| x.id());
+                if let Some(sess) = id.and_then(|id| s.verif_sessions_mut().get(id)) {
+                    sess.verif_set_tx_ctr(c0);
+                }
+            });
+        }
+    }
     for i in 0..cfg.bystanders {
         let (l, p) = (11 + 2 * i as u16, 12 + 2 * i as u16);
         nodes::install_session(ma, SeededRng::new(111 + i as u64), SessKind::Case, NODE_A, NODE_BY + i as u64, l, p, addr_of(1), &nodes::key(0x33), &nodes::key(0x44)).unwrap();
@@ -576,7 +588,7 @@ fn cfgs(tier: Tier) -> Vec<Cfg> {
             if tier == Tier::Quick && kind == SessKind::Pase && behaviour != Behaviour::Ack {
                 continue;
             }
-            v.push(Cfg { kind, behaviour, messages: 2, strategy: Strategy::Fifo, bystanders: 0 });
+            v.push(Cfg { kind, behaviour, messages: 2, strategy: Strategy::Fifo, bystanders: 0, start_ctr: None });
             if kind == SessKind::Case {
                 let ns: &[usize] = if tier == Tier::Quick { &[4, usize::MAX] } else { &[1, 2, 3, 4, 5, usize::MAX] };
                 for from in [0usize, 1] {
@@ -584,7 +596,7 @@ fn cfgs(tier: Tier) -> Vec<Cfg> {
                         if tier == Tier::Quick && behaviour != Behaviour::Ack && n != usize::MAX {
                             continue;
                         }
-                        v.push(Cfg { kind, behaviour, messages: 2, strategy: Strategy::DropFirst { from, n }, bystanders: 0 });
+                        v.push(Cfg { kind, behaviour, messages: 2, strategy: Strategy::DropFirst { from, n }, bystanders: 0, start_ctr: None });
                     }
                 }
             }
@@ -597,7 +609,7 @@ fn cfgs(tier: Tier) -> Vec<Cfg> {
             if tier == Tier::Quick && behaviour != Behaviour::Ack {
                 continue;
             }
-            v.push(Cfg { kind: SessKind::Case, behaviour, messages: 2, strategy: Strategy::DropFirst { from: 0, n }, bystanders: 2 });
+            v.push(Cfg { kind: SessKind::Case, behaviour, messages: 2, strategy: Strategy::DropFirst { from: 0, n }, bystanders: 2, start_ctr: None });
         }
     }
     v
@@ -608,7 +620,7 @@ fn cfg_json(c: &Cfg) -> Value {
         Strategy::Fifo => (-1i64, 0u64),
         Strategy::DropFirst { from, n } => (from as i64, n.min(1_000_000) as u64),
     };
-    json!({"kind": format!("{:?}", c.kind), "behaviour": format!("{:?}", c.behaviour), "messages": c.messages, "drop_from": sf, "drop_n": sn, "bystanders": c.bystanders})
+    json!({"kind": format!("{:?}", c.kind), "behaviour": format!("{:?}", c.behaviour), "messages": c.messages, "drop_from": sf, "drop_n": sn, "bystanders": c.bystanders, "start_ctr": c.start_ctr})
 }
 
 fn cfg_from(v: &Value) -> Cfg {
@@ -626,6 +638,7 @@ fn cfg_from(v: &Value) -> Cfg {
             _ => Strategy::Fifo,
         },
         bystanders: v["bystanders"].as_u64().unwrap_or(0) as usize,
+        start_ctr: v["start_ctr"].as_u64().map(|x| x as u32),
     }
 }
 
@@ -698,11 +711,19 @@ pub fn run(ctx: &Ctx) -> i32 {
     if nonce {
         // pipelined client against an acknowledge-then-reply handler, under every loss policy
         let ns: &[usize] = if ctx.tier == Tier::Quick { &[1, 2] } else { &[1, 2, 3, 4] };
-        all_cfgs.push(Cfg { kind: SessKind::Case, behaviour: Behaviour::AckThenReply, messages: 2, strategy: Strategy::Fifo, bystanders: 0 });
+        all_cfgs.push(Cfg { kind: SessKind::Case, behaviour: Behaviour::AckThenReply, messages: 2, strategy: Strategy::Fifo, bystanders: 0, start_ctr: None });
         for from in [0usize, 1] {
             for &n in ns {
-                all_cfgs.push(Cfg { kind: SessKind::Case, behaviour: Behaviour::AckThenReply, messages: 2, strategy: Strategy::DropFirst { from, n }, bystanders: 0 });
+                all_cfgs.push(Cfg { kind: SessKind::Case, behaviour: Behaviour::AckThenReply, messages: 2, strategy: Strategy::DropFirst { from, n }, bystanders: 0, start_ctr: None });
             }
+        }
+    }
+    if nonce {
+        // sessions whose transmit counters start right below 2^28 (the width of the random start value)
+        // and right below 2^32 (the width of the field)
+        for c0 in [0x0fff_fffdu32, 0xffff_fffb] {
+            all_cfgs.push(Cfg { kind: SessKind::Case, behaviour: Behaviour::Echo, messages: 2, strategy: Strategy::Fifo, bystanders: 0, start_ctr: Some(c0) });
+            all_cfgs.push(Cfg { kind: SessKind::Pase, behaviour: Behaviour::Ack, messages: 2, strategy: Strategy::DropFirst { from: 0, n: 1 }, bystanders: 0, start_ctr: Some(c0) });
         }
     }
     for cfg in all_cfgs {
